@@ -46,6 +46,11 @@ func (d *DotGit) setRefRwfs(fileName, content string, old *plumbing.Reference) (
 	// this is a no-op to call even when old is nil.
 	err = d.checkReferenceAndTruncate(f, old)
 	if err != nil {
+		// O_CREATE may just have made an empty file for a reference that is
+		// packed or missing; a refused update must not leave it behind.
+		if fi, serr := d.fs.Stat(fileName); serr == nil && fi.Size() == 0 {
+			_ = d.fs.Remove(fileName)
+		}
 		return err
 	}
 
